@@ -265,6 +265,38 @@ func c13(r *hx.Run) {
 			c13RoundTrip(r, fmt.Sprintf("max%d", n), pp, many, seq)
 		}
 	}
+	// a failing CAS write at every position of representative batches: PrepareTxnFiles must report an error (an
+	// anchor string produced from an incomplete file set would never read back)
+	for bi, seq := range [][]qsym{{{0, "C"}, {1, "U"}, {2, "R"}}, {{0, "U"}, {1, "U"}}, {{0, "C"}}, {{0, "D"}, {1, "D"}}, {{0, "R"}, {1, "U"}, {2, "D"}}, {{0, "C"}, {0, "U"}, {1, "D"}}} {
+		for k := 1; k <= 6; k++ {
+			caseID := fmt.Sprintf("casfault|%d|write%d", bi, k)
+			if !r.Want(caseID) {
+				continue
+			}
+			cas := fx.NewMemCAS()
+			cas.FailW = func(n int, _ []byte) bool { return n == k }
+			ver := fx.NewVersion(p, &fx.VersionOpts{CAS: cas})
+			var queued []*operation.QueuedOperation
+			for _, q := range seq {
+				queued = append(queued, dids[q.did].Queued(q.key, "did:sidetree"))
+			}
+			info, err := ver.Handler.PrepareTxnFiles(queued)
+			r.Eval()
+			r.State()
+			r.Nontrivial(caseID)
+			failed := len(cas.Writes) < 6 && cas.FailW != nil && func() bool { // did write k happen at all?
+				probe := fx.NewMemCAS()
+				n := 0
+				probe.FailW = func(int, []byte) bool { n++; return false }
+				_, _ = fx.NewVersion(p, &fx.VersionOpts{CAS: probe}).Handler.PrepareTxnFiles(queued)
+				return k <= n
+			}()
+			if failed && err == nil {
+				_, rerr := ver.Provider.GetTxnOperations(&txn.SidetreeTxn{Namespace: "did:sidetree", AnchorString: info.AnchorString})
+				r.Violation("cas-write-failure-swallowed", caseID, fmt.Sprintf("batch %v: CAS write #%d failed but PrepareTxnFiles returned anchor string %s (read back: %v)", seq, k, info.AnchorString, rerr), nil)
+			}
+		}
+	}
 	// SHA2-512 protocol
 	p512 := p
 	p512.MultihashAlgorithms = []uint{fx.SHA512, fx.SHA256}
